@@ -25,7 +25,7 @@ REQUIRED_THEOREMS = ["C18_first_stop", "C18_never_self", "C18_needs_history", "C
                      "C18_derived_requests", "C18_fit_cases", "C18_fitLoop_is_C12_fit", "C18_stop_trace",
                      "C18_fit_cases_multi", "C18_multiReq_derived", "C18_fitRunMulti_is_C12_fit",
                      "C18_gen_deviation_eq_model", "C18_gen_on_epoch_end_eq_model", "C18_gen_deviation_is_documented",
-                     "C18_gen_on_epoch_end_gate_closed", "C18_gen_on_epoch_end_eq_model_total"]
+                     "C18_gen_on_epoch_end_gate_closed", "C18_gen_on_epoch_end_eq_model_total", "C18_stop_trace_multi", "C18_session_traces"]
 EXTRA_TRUSTED = [
     "C18: the monitored values are scripted functions of the epoch; float64 sub/div/abs/sqrt and `<` of Lean's Float are IEEE, "
     "as are Python's and numpy's, so decisions are compared exactly",
